@@ -26,6 +26,7 @@ type oracle struct {
 	okOf    bool     // results are (pointer, ok) and ok is true exactly when the pointer is non-nil
 	args    []int    // which arguments the recorded effect captures (nil = all)
 	fatalIfFalse bool // (tbFatal functions) the callee fails the test itself when its result is false
+	outArgs map[int]string // arguments passed as &x that the callee overwrites: index -> oracle parameter holding the new value
 }
 
 type fnSpec struct {
@@ -766,6 +767,26 @@ var ribTableSpecs = []fnSpec{
 }
 
 var ribSmallSpecs = []fnSpec{
+	{
+		file: "rib/rib.go", goName: "AddEntry", recvType: "*RIB", callAs: "r.AddEntry§", leanName: "ribAddEntry",
+		params: []param{
+			{goName: "ni", goType: "string", lean: "ni", kd: kStr},
+			{goName: "op", goType: "*spb.AFTOperation", lean: "op", kd: kPtr("AFTOperationC")},
+		},
+		goRets: "[]*OpResult, []*OpResult, error", rets: []string{"list:RibOpResult", "list:RibOpResult", "err"},
+		oracleParams: []param{
+			{goName: "§oksOut", lean: "oksOut", kd: kind{k: "list", s: "RibOpResult", elemNN: true}},
+			{goName: "§failsOut", lean: "failsOut", kd: kind{k: "list", s: "RibOpResult", elemNN: true}},
+			{goName: "§intErr", lean: "intErr", kd: kind{k: "status"}},
+		},
+		oracles: map[string]oracle{
+			// addEntryInternal(ni, op, &oks, &fails, checked): appends to the two slices; recorded with
+			// the values they had at the call (both empty) and the set of handled operations
+			"r.addEntryInternal": {results: []string{"§intErr"}, effect: "addEntryInternal", args: []int{0, 1}, outArgs: map[int]string{2: "§oksOut", 3: "§failsOut"}},
+		},
+		effects: true,
+		typeMap: map[string]string{"OpResult": "RibOpResult"},
+	},
 	{
 		file: "rib/rib.go", goName: "checkCandidate", callAs: "checkCandidate§", leanName: "checkCandidate",
 		params: []param{{goName: "caft", goType: "*aft.Afts", lean: "caft", kd: kPtr("CandAfts"), nonnil: true}},
